@@ -133,6 +133,11 @@ func (w *Worker) runC05Frame(rc *simapi.RunConfig) *simapi.RunResult {
 	ctx := linter.NewContext(w.corpus.Fset, w.corpus.Sizes)
 	ctx.SetGoVersion(wl.GoVersion)
 	var checkers []*linter.Checker
+	// constructors run on shared state too: the registry (they read their
+	// parameters from it) and the sentinels must come out unchanged. The
+	// context's Require flags are theirs to set and are not judged.
+	regB, sentB := fpRegistry(), fpSentinels()
+	var ctorVios []simapi.Violation
 	for _, name := range wl.Checkers {
 		c, err := linter.NewChecker(ctx, w.infoBy[name])
 		if err != nil {
@@ -141,7 +146,18 @@ func (w *Worker) runC05Frame(rc *simapi.RunConfig) *simapi.RunResult {
 			return res
 		}
 		checkers = append(checkers, c)
+		if r2, s2 := fpRegistry(), fpSentinels(); r2 != regB || s2 != sentB {
+			what := "registered checker metadata or parameter values"
+			if s2 != sentB {
+				what = "an astcast nil-object sentinel"
+			}
+			ctorVios = append(ctorVios, simapi.Violation{Class: "mutated-by-constructor", Identity: "mutated-by-constructor:" + name,
+				Detail: fmt.Sprintf("constructing %s changed %s", name, what)})
+			regB, sentB = r2, s2
+		}
+		res.Stats["constructions"]++
 	}
+	res.Violations = append(res.Violations, ctorVios...)
 	order := make([]int, len(checkers))
 	for i := range order {
 		order[i] = i
